@@ -35,7 +35,7 @@ RULE = (
     "components: for each concrete class with to_dict/from_dict found by pkgutil.walk_packages, Hypothesis draws constructor arguments by parameter name "
     "(floats != default, flipped booleans, random masks/labels, nested operations/moves to depth 3) and tunables; non-trivial = at least one non-default parameter; "
     "distinct = (class, set of non-default parameter names, nesting depth). simulation: driver x non-default settings x steps. imports: one subprocess per public "
-    "module (exhaustive for the modules found)."
+    "module (exhaustive for the modules found); after the first import only the home sub-package of each class is imported before it is rebuilt by name."
 )
 ASSUMPTIONS = [
     "classes added later are picked up when they follow the package's to_dict/from_dict convention and their constructor parameters are recognised by name; an unknown required parameter makes the class appear under 'not_generated' in the evidence (visible, not silent)",
